@@ -77,6 +77,8 @@ fn base(name: &str, prop: &'static str, alphabet: Vec<Cmd>, depth: usize, tier: 
         wall_cap_s: if tier == Tier::Quick { 40.0 } else { 420.0 },
         check_usage: false,
         start_time: 0,
+        opaques: vec![],
+        opaque_mod: 0,
     }
 }
 
@@ -384,6 +386,83 @@ fn c15(tier: Tier) -> Vec<SeqCfg> {
     v
 }
 
+fn c11(tier: Tier) -> Vec<SeqCfg> {
+    use CasArg::*;
+    let k250 = vec![b'K'; 250];
+    let kbin = vec![0u8, 0xff, 0x81];
+    let big = vec![b'B'; 1100];
+    let mut a = vec![
+        set(K1, b"5", 0xdeadbeef, 0),
+        set(K1, b"", 0, 0),
+        set(&k250, &all_bytes(), 0xffffffff, 0),
+        set(&kbin, b"bin", 1, 0),
+        set(K1, &big, 0, 0),
+        store(StoreKind::Set, K1, b"x", 0, 0, CurrentPlus1),
+        add(K1, b"a", 0, 0),
+        add(K2, &big, 0, 0),
+        replace(K1, b"r", 0, 0),
+        replace(K2, b"r", 0, 0),
+        append(K1, b"+", Zero),
+        append(K2, b"+", Zero),
+        append(K1, &big, Zero),
+        prepend(K1, b"-", Zero),
+        incr(K1, 1, 7, 0, Zero),
+        decr(K1, 1, 7, 0, Zero),
+        incr(K2, 1, 7, 0xffff_ffff, Zero),
+        incr(&kbin, 1, 7, 0, Zero),
+        delete(K1, Zero),
+        delete(K1, CurrentPlus1),
+        delete(K2, Zero),
+        get(K1),
+        getk(K1),
+        get(K2),
+        getk(&k250),
+        getk(&kbin),
+        flush(None),
+        flush(Some(3)),
+        Cmd::Noop,
+        Cmd::Version,
+        Cmd::Stat,
+    ];
+    // quiet twins of everything that has one
+    let twins: Vec<Cmd> = a.iter().filter_map(|c| c.toggled()).collect();
+    a.extend(twins);
+    let d = if tier == Tier::Quick { 3 } else { 4 };
+    let mut c = base("C11/all-opcodes-all-outcomes", "C11", a, d, tier);
+    c.opaques = vec![0, 0xabad1dea, 0xffffffff, 0x80000001];
+    vec![c]
+}
+
+fn c19(tier: Tier) -> Vec<SeqCfg> {
+    use CasArg::*;
+    let a = vec![
+        set(K1, b"5", 0xdeadbeef, 0),
+        set(K1, b"txt", 1, 2),
+        store(StoreKind::Set, K1, b"c", 2, 0, Current),
+        store(StoreKind::Set, K1, b"s", 3, 0, Stale1),
+        add(K1, b"a", 4, 0),
+        add(K2, b"9", 5, 0),
+        replace(K1, b"r", 6, 0),
+        replace(K2, b"r", 7, 3),
+        append(K1, b"1", Zero),
+        prepend(K1, b"2", Zero),
+        append(K2, b"3", Current),
+        incr(K1, 2, 10, 0, Zero),
+        decr(K1, 1, 10, 0, Zero),
+        incr(K2, 1, 10, 0xffff_ffff, Zero),
+        delete(K1, Zero),
+        delete(K2, Stale1),
+        get(K1),
+        getk(K2),
+        flush(None),
+        flush(Some(2)),
+        tick(1),
+        tick(2),
+    ];
+    let d = if tier == Tier::Quick { 3 } else { 5 };
+    vec![base("C19/loud-vs-toggled", "C19", a, d, tier)]
+}
+
 pub fn seq_cfgs(prop: &str, tier: Tier) -> Vec<SeqCfg> {
     match prop {
         "C01" => c01(tier),
@@ -392,6 +471,8 @@ pub fn seq_cfgs(prop: &str, tier: Tier) -> Vec<SeqCfg> {
         "C06" => c06(tier),
         "C07" => c07(tier),
         "C08" => c08(tier),
+        "C11" => c11(tier),
+        "C19" => c19(tier),
         "C14" => c14(tier),
         "C15" => c15(tier),
         _ => vec![],
